@@ -35,6 +35,22 @@ package codegen
 //@   ensures len(r.arr) >= old(len(r.arr)) && forall q int :: {r.arr[q]} 0 <= q && q < old(len(r.arr)) ==> r.arr[q] == old(r.arr[q])
 //@   modifies r.maxIndex, r.arr, r.index[*], r.rowMap[*], r.arr[len(r.arr):cap(r.arr)]
 //
+// Array(): the documented encoding - n = maxIndex+1 offsets (rebased by n, -1 for a
+// missing index) followed by the stored rows, unchanged.
+//@ func table.Array
+//@   requires tableInv(r) && r.maxIndex + 1 + len(r.arr) < 2147483647
+//@   let n = r.maxIndex + 1
+//@   ensures len(result) == n + len(r.arr) && (fresh(result) || len(result) == 0)
+//@   ensures forall i int :: {result[i]} 0 <= i && i < n && has(r.index, i) ==> result[i] == E(r.index[i] + n)
+//@   ensures forall i int :: {result[i]} 0 <= i && i < n && !has(r.index, i) ==> result[i] == E(0 - 1)
+//@   ensures forall q int :: {r.arr[q]} 0 <= q && q < len(r.arr) ==> result[n + q] == r.arr[q]
+//@   modifies nothing
+//@   loop 0 invariant r == old(r) && 0 <= i && i <= n && len(arr) == i && cap(arr) >= n + len(r.arr) && (fresh(arr) || cap(arr) == 0)
+//@   loop 0 invariant unchangedOld(fields(table[E])) && unchangedOld(elems(E)) && unchangedOld(maps(r.index)) && unchangedOld(maps(r.rowMap))
+//@   loop 0 invariant forall k int :: {arr[k]} 0 <= k && k < i && has(r.index, k) ==> arr[k] == E(r.index[k] + n)
+//@   loop 0 invariant forall k int :: {arr[k]} 0 <= k && k < i && !has(r.index, k) ==> arr[k] == E(0 - 1)
+//@   loop 0 decreases n - i
+//
 // ---- action binding (C06) --------------------------------------------------------------
 //
 // termTy: the Go type of the value a term puts on the parse stack.
